@@ -54,15 +54,17 @@ theorem accept_returns_stream (e : EP) (i : Nat) (rest : List Nat) (o : Obj)
   simp [appAccept, hq, ho]
 
 /-- The requester gets exactly one stream per acknowledged request, with the window the acceptor
-    advertised as its send credit. -/
+    advertised as its send credit; the open call returns exactly that stream. -/
 theorem ack_yields_one_stream (e : EP) (fid n req : Nat) (ig : Bool)
     (hs : lookup e.flows fid = some (.requested req)) (hw : (e.opens.find? (·.req = req)).isSome) :
-    let r := processFrame e (.acknowledge fid n) ig
-    r.1.objs = e.objs ++ [newObj e.opts fid n [] 0] ∧
-    lookup r.1.flows fid = some (.established e.objs.length) ∧
-    r.1.handles = e.handles ++ [e.objs.length] ∧
-    r.2.1 = [.openDone req (.ok e.handles.length)] ∧ r.2.2 = none ∧ r.1.outq = e.outq :=
-  Mux.processFrame_ack_establishes e fid n req ig hs hw
+    (let r := processFrame e (.acknowledge fid n) ig
+     r.1.objs = e.objs ++ [newObj e.opts fid n [] 0] ∧
+     lookup r.1.flows fid = some (.established e.objs.length) ∧
+     r.1.doneq = e.doneq ++ [(req, e.objs.length)] ∧
+     r.2.2 = none ∧ r.1.outq = e.outq) ∧
+    (∀ (e' : EP) (i : Nat), runDone e' [(req, i)] =
+      ({ e' with handles := e'.handles ++ [i] }, [.openDone req (.ok e'.handles.length)])) :=
+  ⟨Mux.processFrame_ack_establishes e fid n req ig hs hw, fun e' i => Mux.runDone_single e' req i⟩
 
 /-- A `Connect` whose id is 0 or in use is rejected with exactly one `Reset`; the existing flow and
     everything else is left as it was. -/
